@@ -701,6 +701,23 @@ func (x *runner) concurrent() {
 	// what every render job produces alone (sequentially, same engine, before the phase)
 	alone := map[concKey]*result{}
 	tds := map[int]*document.TemplateData{}
+	// gated phase: every variable value is a Stringer (on both sides of every comparison); the first render of a
+	// goroutine gets a data value of its own whose values meet the other goroutines' inside the render
+	mkData := func(di, slot int) *document.TemplateData {
+		td := x.c.data(di).templateData()
+		if cc.Gate {
+			gated(td, slot)
+		}
+		return td
+	}
+	armed := make([]bool, len(cc.Workers))
+	gtds := make([]*document.TemplateData, len(cc.Workers))
+	for wi, w := range cc.Workers {
+		if cc.Gate && len(w) > 0 && w[0].K == "render" {
+			armed[wi] = true
+			gtds[wi] = mkData(w[0].Data, wi)
+		}
+	}
 	needPkg := map[concKey]bool{} // the saved package is compared for the first job of the first two goroutines
 	for wi, w := range cc.Workers {
 		if wi < 2 && len(w) > 0 && w[0].K == "render" && !kit.RaceMode() {
@@ -714,7 +731,7 @@ func (x *runner) concurrent() {
 			}
 			k := concKey{j.Name, j.Entry & 1, j.Data}
 			if alone[k] == nil {
-				alone[k] = renderOn(x.eng, j.Name, j.Entry, x.c.data(j.Data).templateData()).observe(needPkg[k])
+				alone[k] = renderOn(x.eng, j.Name, j.Entry, mkData(j.Data, -1)).observe(needPkg[k])
 				x.keep(fmt.Sprintf("%s(%q, data %d) before the concurrent phase", entryName[j.Entry&1], j.Name, j.Data), alone[k])
 				if v := x.m.cache[j.Name]; v != nil {
 					for _, a := range v.chain() {
@@ -723,7 +740,7 @@ func (x *runner) concurrent() {
 				}
 			}
 			if tds[j.Data] == nil {
-				tds[j.Data] = x.c.data(j.Data).templateData() // ONE data value shared by all goroutines that use it
+				tds[j.Data] = mkData(j.Data, -1) // ONE data value shared by all goroutines that use it
 			}
 		}
 	}
@@ -749,6 +766,11 @@ func (x *runner) concurrent() {
 	}
 	for di, td := range tds {
 		watch = append(watch, &watched{what: fmt.Sprintf("data %d", di), val: td})
+	}
+	for wi, td := range gtds {
+		if td != nil {
+			watch = append(watch, &watched{what: fmt.Sprintf("data of the first render of worker %d", wi), val: td})
+		}
 	}
 	if kit.RaceMode() {
 		watch = nil // the race detector reports the write itself
@@ -791,15 +813,26 @@ func (x *runner) concurrent() {
 	ready.Add(len(jobs))
 	done.Add(len(jobs))
 	eng := x.eng
+	var grp *gateGroup
+	var gates []*gateState
+	if cc.Gate {
+		grp, gates = newGates(armed)
+		defer dropGates()
+	}
 	for wi := range jobs {
 		go func(wi int) {
 			defer done.Done()
 			ready.Done()
 			<-start
 			first := atomic.AddInt64(&steps, 1)
-			for _, jb := range jobs[wi] {
+			for ji, jb := range jobs[wi] {
 				switch jb.op.K {
 				case "render":
+					if ji == 0 && armed[wi] {
+						jb.r = renderOn(eng, jb.op.Name, jb.op.Entry, gtds[wi])
+						gates[wi].hit(false) // returned without printing a variable: do not keep the others waiting
+						break
+					}
 					jb.r = renderOn(eng, jb.op.Name, jb.op.Entry, tds[jb.op.Data])
 				case "load", "loaddoc":
 					var err error
@@ -842,6 +875,35 @@ func (x *runner) concurrent() {
 		res.Label("conc:overlapped")
 	}
 	res.Label("conc:ran")
+	if cc.Gate {
+		dropGates()
+		res.Label("conc:gated")
+		inFlight, levels := 0, 0
+		for wi, g := range gates {
+			if g != nil && atomic.LoadInt32(&g.in) == 1 {
+				inFlight++
+				if v := x.m.cache[cc.Workers[wi][0].Name]; v != nil {
+					levels += len(v.chain()) - 1
+				}
+			}
+		}
+		if atomic.LoadInt32(&grp.timeouts) > 0 {
+			res.Label("conc:gate-timeout")
+		} else {
+			// nobody gave up waiting: the renders that waited were all in flight when the last one arrived
+			for _, n := range []int{2, 9, 17, 33} {
+				if inFlight >= n {
+					res.Label(fmt.Sprintf("conc:renders-in-flight-at-once>=%d", n))
+				}
+			}
+			for _, n := range []int{16, 32, 64, 128} {
+				if levels > n {
+					res.Label(fmt.Sprintf("conc:inheritance-levels-in-flight-at-once>%d", n))
+				}
+			}
+		}
+		res.Count("conc-gated-renders-in-flight", inFlight)
+	}
 
 	// U4: every concurrent render equals what it produces alone
 	nr := 0
@@ -939,7 +1001,7 @@ func (x *runner) concurrent() {
 		return fmt.Sprint(keys[a]) < fmt.Sprint(keys[b])
 	})
 	for _, k := range keys {
-		got := renderOn(x.eng, k.name, k.entry, x.c.data(k.data).templateData()).observe(false)
+		got := renderOn(x.eng, k.name, k.entry, mkData(k.data, -1)).observe(false)
 		res.Eval("C17.U2")
 		if df := diffResult(alone[k], got); df != "" {
 			res.Fail("C17.U2", "conc: %s(%q, data %d) before vs after the concurrent phase: %s", entryName[k.entry], k.name, k.data, df)
